@@ -39,8 +39,11 @@ RACE_LVSS = [H("races", "race_lvss", 2, 3, args=[4, 0, 0], **{"max-failures": 60
 
 # C18(b): the exprgen sweep contains any_sender_of as an adaptor at every position (differential against the same
 # reference model as the unwrapped tree); sch_any covers any_scheduler; strm_seq covers type_erased_stream
+CORO = [H("coro", "coro_script", args=list(a)) for a in ((0, 0, 0), (0, 1, 0), (0, 0, 1), (0, 1, 1), (1, 0, 0), (1, 1, 0), (1, 0, 1))] + [
+    H("coro", "coro_script", args=[2, 0, 0], thorough_only=True), H("coro", "coro_script", args=[1, 1, 1], thorough_only=True)]
 CHECKS = {
     "C19": {"harnesses": C19_HARNESSES},
+    "C10": {"harnesses": CORO},
     "C18": {
         "harnesses": [
             H("anyw", "any_storage"),
